@@ -246,6 +246,13 @@ class CodecScenario:
         # ---- platform --------------------------------------------------------------
         if d in ("importlib.import_module",) and args and isinstance(args[0], K):
             name = args[0].v
+            broken = getattr(self.world, "import_errors", ())
+            hit_b = next((b for b in broken if name == b or str(name).startswith(b + ".")), None)
+            if hit_b is not None:
+                # the module file is there, but importing it fails: it imports a name that has been removed elsewhere
+                from mtsa.absint import raise_exc
+                raise_exc(st, "ImportError", name=K(hit_b))
+                return U("import of " + str(name) + " fails")
             if name in self.world.modules:
                 return R("module", name=K(name))
             # CPython: ModuleNotFoundError.name is the first component of the dotted path that cannot be found
